@@ -32,6 +32,7 @@ def run(chk):
     from lib import a64vec
     a64vec.run(chk, A)
     a64vec.run_signature_rows(chk, A)
+    a64vec.run_fp(chk, A)
     from lib import relocrules
     relocrules.bound_unbound(chk, [emit])
     from lib import opkind
